@@ -255,3 +255,43 @@ Lemma rank3_lt : forall a b, le3 a b = true -> b3_eqb a b = false -> rank3 a < r
 Proof. intros a b; destruct a, b; simpl; intros H1 H2; try discriminate H1; try discriminate H2; auto. Qed.
 Lemma rank3_max : forall a, rank3 a <= 2.
 Proof. intro a; destruct a; simpl; auto. Qed.
+
+(* ---- information order: E ("not evaluated") is refined by every value ---- *)
+(* An outcome e refines to the true value t when it is either undetermined or equal to t.  The
+   Kleene connectives are monotone in this order: replacing an undetermined operand by its true
+   value never flips a decision already taken.  (This is why an error reported by one child --
+   depth exceeded, condition not evaluable -- can never corrupt a decision of the parent.) *)
+Definition refines (e t : b3) : Prop := e = E \/ e = t.
+
+Lemma refines_refl : forall t, refines t t.
+Proof. intro t; right; reflexivity. Qed.
+Lemma refines_E : forall t, refines E t.
+Proof. intro t; left; reflexivity. Qed.
+Lemma refines_decided : forall e t, refines e t -> e <> E -> e = t.
+Proof. intros e t [H|H] Hn; [contradiction | exact H]. Qed.
+
+Lemma or3_refines : forall a a' b b', refines a a' -> refines b b' -> refines (or3 a b) (or3 a' b').
+Proof.
+  intros a a' b b' [Ha|Ha] [Hb|Hb]; subst; unfold refines;
+    destruct a'; destruct b'; simpl; auto; destruct a; simpl; auto; destruct b; simpl; auto.
+Qed.
+Lemma and3_refines : forall a a' b b', refines a a' -> refines b b' -> refines (and3 a b) (and3 a' b').
+Proof.
+  intros a a' b b' [Ha|Ha] [Hb|Hb]; subst; unfold refines;
+    destruct a'; destruct b'; simpl; auto; destruct a; simpl; auto; destruct b; simpl; auto.
+Qed.
+Lemma not3_refines : forall a a', refines a a' -> refines (not3 a) (not3 a').
+Proof. intros a a' [Ha|Ha]; subst; unfold refines; simpl; auto. Qed.
+Lemma diff3_refines : forall a a' b b', refines a a' -> refines b b' -> refines (diff3 a b) (diff3 a' b').
+Proof. intros a a' b b' Ha Hb. unfold diff3. apply and3_refines; [exact Ha | apply not3_refines; exact Hb]. Qed.
+
+Lemma or3_list_refines : forall l l', Forall2 refines l l' -> refines (or3_list l) (or3_list l').
+Proof.
+  intros l l' H; induction H as [|a b l l' Hab Hl IH]; [apply refines_refl|].
+  rewrite !or3_list_cons; apply or3_refines; assumption.
+Qed.
+Lemma and3_list_refines : forall l l', Forall2 refines l l' -> refines (and3_list l) (and3_list l').
+Proof.
+  intros l l' H; induction H as [|a b l l' Hab Hl IH]; [apply refines_refl|].
+  rewrite !and3_list_cons; apply and3_refines; assumption.
+Qed.
